@@ -115,6 +115,19 @@ CHECKS = {
                      "selection and marker columns are runtime arithmetic: not decided.",
                 note="Discharge table is part of the specification; one open known finding (R14-SHOW:display_position) in known_findings.json.",
                 ref="§4 C14; §5.2, §5.5"),
+    "C15": dict(level="other", tech="path enumeration over the typed HIR of the two work-list traversals with a work-list event alphabet and emptiness facts; resolved-term comparison of token construction and delegation; decoded format_args! template of the renderer; C02's forwarding instances",
+                text="Partial (structural clauses only): children()/self_or_children() return exactly what the forwarding callback is given, in call "
+                     "order (C02's instances decide what is forwarded); as_token/to_thin/as_thin_token copy rule, span offsets and children through "
+                     "order-preserving steps; in iterate_level_order / iterate_pre_order, on every path a token drawn from the work list reaches the "
+                     "callback exactly once and its children are queued exactly once, only drawn tokens reach the callback, the work list is seeded "
+                     "once with the root, draws are from the front, children are appended at the back (level-order: queues swapped only when one is "
+                     "empty) or pushed as the new top (pre-order: the top popped only when empty, depth = stack.len() - 1 read before the push), Ok "
+                     "is returned only where all work lists are known to be empty, every loop path makes progress; write_tree_to renders through "
+                     "iterate_pre_order with four spaces per level, the rule, and the matched text exactly on leaves. That these conditions add up "
+                     "to 'every token exactly once, in order' for all tree shapes is the usual induction on the work-list invariant and is argued in "
+                     "DESIGN.md, not machine-checked; span nesting / sibling order are not decided.",
+                note="A traversal rewritten in another form (recursion, a single explicit stack) is reported as not recognised: the rule fails closed.",
+                ref="§4 C15"),
     "C16": dict(level="other", tech="type-tree walk of derive output + abstract evaluation of getter bodies as projections (fixtures); sibling equality of the two generators",
                 text="Partial, on fixture grammars with repeated mentions, nested options/choices/repetitions, mentions under & and !, optimizer on/off "
                      "and reduced boxing: a getter exists exactly for the rules mentioned outside negative predicates; its return type is the "
@@ -154,7 +167,7 @@ CHECKS = {
                 note="pest's optimizer trusted; option effects decided on fixture grammars at type level.",
                 ref="§4 C20; §5.3"),
 }
-NA = {"C15": "traversal (pre-order / level-order / tree rendering) correctness quantifies over queue contents for all tree shapes: no necessary structural clause beyond the child-forwarding order already decided under C02; a rule on the shape of the two loops would be a frozen fragment (DESIGN §4 C15)"}
+NA = {}
 ALL = ["C%02d" % i for i in range(1, 21)]
 
 
